@@ -71,12 +71,14 @@ func wrapsNotFoundD(v ssa.Value, depth int) bool {
 }
 
 func checkC15(w *World, r *Report) {
+	tsWorld = w
 	r.Explanation = "Decides the clauses of C15 that are visible in the shape of Engine.Load and the registration functions, on every path: (R15.1) every return on the paths where no loader produced a template returns an error that wraps ErrTemplateNotFound with %w, and no store into the template cache is reachable on those paths; (R15.2) the loader loop visits e.loaders (a slice that is only ever appended to) and leaves the loop at the first successful load, ChainLoader alike; (R15.3) RegisterString, RegisterTemplate and RegisterCompiledTemplate reach a store e.templates[name] on every successful path on which the cache flag is on; (R15.4) the cache is read only under the cache flag, and the reload decision compares the loader's modification time with the cached template's with > (or !=). NOT decided: every temporal claim of the property — 'visible to the next call', 'not re-read when unchanged', 'stays as it was', development-mode toggling — these quantify over operation histories. By reading: with the cache flag off a registered template is dropped (the map is registry and cache in one); whether that contradicts 'uses the source most recently registered' depends on the intended reading and is reported as a note only. (R15.5) every successful return of a GetModifiedTime implementation derives from os.FileInfo.ModTime or a delegated GetModifiedTime."
 	r.Explanation += " Rules added in later rounds: (R15.6) the registry map is never replaced; (R15.7) Exists of file-backed loaders answers true only behind a file-system query (also through predicate closures). (R15.8) the engine's boolean switches store independently of remembered state. (R15.9) a file-reading Load reads the file before every successful return."
 	r.Explanation += " Round 9: (R15.10) a loader handed to RegisterLoader is appended whatever it looks like (nil test / identity only)."
 	r.Explanation += " Round 10: (R15.11) not-found is not memoised; (R15.12) timestamps of cached templates are not rewritten; (R15.13) only the loading path gives a template a loader."
 	r.Explanation += " Round 11: (R15.11) also for Exists; (R15.15) loader walks do not classify errors."
 	r.Explanation += " Round 12: (R15.4) every reader of the template table stands under the cache flag; (R15.16) loaders are asked in registration order."
+	r.Explanation += " Round 14: (R15.17) Load, Exists and GetModifiedTime of one loader shape the name into a path by the same operations."
 	r.RuleText = "obligation = one return / store / loop / comparison in the cache and loader code; non-trivial = all"
 	r.Trusted = []string{"fmt.Errorf %w semantics", "range over a slice visits elements in index order"}
 
@@ -454,7 +456,7 @@ func checkC15(w *World, r *Report) {
 			return false
 		}
 		for _, e := range node.In {
-			if e.Site == nil || !parts[e.Caller.Func] || !cacheOnAt(e.Caller.Func, e.Site, depth+1) {
+			if e.Site == nil || !cacheOnAt(e.Caller.Func, e.Site, depth+1) {
 				return false
 			}
 		}
@@ -827,6 +829,9 @@ func checkLoaderLoops(w *World, r *Report) {
 
 // timestampSource classifies where an int64 timestamp comes from: "loader" if every non-constant
 // contribution is the result of GetModifiedTime; otherwise a description.
+// tsWorld: the program timestampSource looks field stores up in (set by checkC15).
+var tsWorld *World
+
 func timestampSource(v ssa.Value, seen map[ssa.Value]bool, depth int) string {
 	if seen[v] || depth > 8 {
 		return "loader"
@@ -859,6 +864,36 @@ func timestampSource(v ssa.Value, seen map[ssa.Value]bool, depth int) string {
 				}
 			}
 			return "loader"
+		}
+		// a field of a bookkeeping struct of the package (not the Template itself): every store
+		// into that field in the package decides
+		if fa, ok := x.X.(*ssa.FieldAddr); ok && tsWorld != nil {
+			if tn, f := fieldOfAddr(fa); tn != "" && tn != "Template" {
+				nStores := 0
+				res := "loader"
+				for _, fn := range tsWorld.pkgFuncs() {
+					instrsOf(fn, func(in ssa.Instruction) {
+						st, ok := in.(*ssa.Store)
+						if !ok {
+							return
+						}
+						fa2, ok := st.Addr.(*ssa.FieldAddr)
+						if !ok {
+							return
+						}
+						if tn2, f2 := fieldOfAddr(fa2); tn2 != tn || f2 != f {
+							return
+						}
+						nStores++
+						if s := timestampSource(st.Val, seen, depth+1); s != "loader" {
+							res = s
+						}
+					})
+				}
+				if nStores > 0 {
+					return res
+				}
+			}
 		}
 	case *ssa.Call:
 		if f := x.Call.StaticCallee(); f != nil {
@@ -1183,11 +1218,28 @@ func (w *World) loadNilRegion() (*ssa.Function, *ssa.BasicBlock) {
 				continue
 			}
 			bo, ok := v.(*ssa.BinOp)
-			if !ok || (bo.Op != token.EQL && bo.Op != token.NEQ) || !isNilConst(bo.Y) || !isNamed(bo.X.Type(), twigPath, "Template") {
+			if !ok || (bo.Op != token.EQL && bo.Op != token.NEQ) || !isNilConst(bo.Y) {
+				continue
+			}
+			// "which loader had it" stands for "did any loader have it": a Loader variable that is
+			// nil before the loop and set from the loop's element
+			loaderPhi := false
+			if ph, ok := bo.X.(*ssa.Phi); ok && isNamed(bo.X.Type(), twigPath, "Loader") && hasLoaderLoop(part) {
+				nils, others := 0, 0
+				for _, e := range ph.Edges {
+					if isNilConst(e) {
+						nils++
+					} else {
+						others++
+					}
+				}
+				loaderPhi = nils > 0 && others > 0
+			}
+			if !loaderPhi && !isNamed(bo.X.Type(), twigPath, "Template") {
 				continue
 			}
 			_, isPhi := bo.X.(*ssa.Phi)
-			if isPhi && !freshTemplateEdge(bo.X, map[ssa.Value]bool{}) {
+			if isPhi && !loaderPhi && !freshTemplateEdge(bo.X, map[ssa.Value]bool{}) {
 				isPhi = false // a variable that only ever holds nil or a cached template ("previous")
 			}
 			fromPart := false
